@@ -11,6 +11,7 @@ import (
 	"fmt"
 	"math"
 	"math/big"
+	"os"
 	"sort"
 
 	"github.com/elastos/Elastos.ELA/account"
@@ -432,6 +433,98 @@ func fixedCases() {
 	}
 }
 
+
+// keystoreCases: accounts saved to a wallet file, the file reopened, and a
+// transaction signed by the reopened wallet (Client.Sign) sent through the
+// node's check.  Private keys are handed over as crypto.GenerateKeyPair
+// produces them (D.Bytes(): 32 bytes, or fewer when D < 2^248); the class of
+// short keys is generated on purpose (1 in 256 otherwise).
+func keystoreCases() {
+	pw := []byte("verif-c37")
+	scalars := []*big.Int{big.NewInt(1), big.NewInt(0xabcdef)}
+	for _, bits := range []uint{255, 250, 248, 247, 241, 240, 200, 129, 64} { // D just below 2^bits
+		d := new(big.Int).SetBytes(rng.Bytes(32))
+		d.Rsh(d, 256-bits)
+		d.SetBit(d, int(bits)-1, 1)
+		d.Mod(d, crypto.DefaultParams.N)
+		scalars = append(scalars, d)
+	}
+	for i := 0; i < run.N(3, 200); i++ {
+		d := new(big.Int).SetBytes(rng.Bytes(32))
+		d.Mod(d, crypto.DefaultParams.N)
+		if d.Sign() != 0 {
+			scalars = append(scalars, d)
+		}
+	}
+	for n, d := range scalars {
+		priv := d.Bytes() // as GenerateKeyPair returns it
+		acct, err := account.NewAccountWithPrivateKey(priv)
+		if err != nil {
+			panic(err)
+		}
+		path := fmt.Sprintf("%s/keystore_%d.dat", run.Out, n)
+		os.Remove(path)
+		cl, err := account.CreateFromAccount(path, pw, acct)
+		if err != nil || cl == nil {
+			panic(fmt.Sprint("create wallet: ", err))
+		}
+		second := sigkit.NewKey(rng) // a second, full-length account in the same file
+		acct2, _ := account.NewAccountWithPrivateKey(second.Priv)
+		if err := cl.SaveAccount(acct2); err != nil {
+			panic(err)
+		}
+		re, err := account.Open(path, pw)
+		kind := fmt.Sprintf("keystore:privlen%d", len(priv))
+		in := map[string]interface{}{"op": "save/open/sign", "privateKey": sigkit.Hex(priv), "address": acct.Address}
+		if err != nil || re == nil {
+			st.Fail("keystore:reopen-failed", "wallet file written by CreateFromAccount cannot be opened", in)
+			continue
+		}
+		back := re.GetAccountByCodeHash(acct.ProgramHash.ToCodeHash())
+		same := back != nil && back.PublicKey != nil && crypto.Equal(back.PublicKey, acct.PublicKey) && back.Address == acct.Address
+		st.Count(kind+fmt.Sprint(same), true, "keystore:reloaded-same-key="+fmt.Sprint(same))
+		if !same {
+			st.Fail("keystore:reloaded-account-differs", "after saving and reopening the wallet the account kept under the original address has another key", in)
+		}
+		// blob layout and reloaded private key through the model
+		if data, err := re.LoadAccountData(); err == nil {
+			for _, a := range data {
+				if a.Address != acct.Address || a.PrivateKeyEncrypted == "" {
+					continue
+				}
+				enc, _ := common.HexStringToBytes(a.PrivateKeyEncrypted)
+				blob, err := re.DecryptPrivateKey(enc)
+				if err != nil {
+					continue
+				}
+				xy, _ := acct.PublicKey.EncodePoint(false)
+				var reloaded []byte
+				if back != nil {
+					reloaded = back.PrivateKey
+				}
+				j := next()
+				sh.Add(fmt.Sprintf("CBlob %d %s %s %s %s", j, sigkit.Pack(xy[1:]), sigkit.Pack(priv), sigkit.Pack(blob), sigkit.Pack(reloaded)))
+				st.LogCase(run.Out, j, map[string]interface{}{"op": "keystore blob", "privlen": len(priv), "blob": sigkit.Hex(blob)})
+			}
+		}
+		// sign with the reopened wallet, check with the node
+		tx, refs := buildTx([]common.Uint168{acct.ProgramHash, acct2.ProgramHash}, 1)
+		tx.SetPrograms([]*pg.Program{{Code: acct.RedeemScript, Parameter: []byte{}}, {Code: acct2.RedeemScript, Parameter: []byte{}}})
+		var signErr error
+		pan, _ := lib.Recover(func() { _, signErr = re.Sign(tx) })
+		acc := false
+		if !pan && signErr == nil {
+			acc, _ = accepted(func() error { return transaction.CheckTransactionSignatureVerifC05(tx, refs) })
+		}
+		st.Count(kind+":tx"+fmt.Sprint(acc), true, "keystore-signed-tx:"+fmt.Sprint(acc))
+		if !acc {
+			in["signError"] = fmt.Sprint(signErr)
+			st.Fail("wallet:signed-transaction-rejected", "a transaction signed by the reopened wallet ("+kind+") does not pass checkTransactionSignature", in)
+		}
+		os.Remove(path)
+	}
+}
+
 func main() {
 	run = lib.ParseArgs()
 	elaenv.InitLog(run.Out)
@@ -500,6 +593,7 @@ func main() {
 		idx := pickIdx(len(keys))
 		walletCase([]signer{stdSigner(idx[0]), multiSigner(2, idx[1:4], rng.Intn(3)), schnorrSigner(idx[4:6])}, false)
 	}
+	keystoreCases()
 	addrCases()
 	fixedCases()
 	st.Traces = st.Evals
